@@ -48,6 +48,18 @@ def ref_parse(tokens):
             return e
         if t.isalnum() and t not in ('not', 'and', 'or', 'is', 'int', 'length'):
             take()
+            if t.isalpha() and peek() == '(':
+                take()
+                args = []
+                if peek() != ')':
+                    args.append(expr())
+                    while peek() == ',':
+                        take()
+                        args.append(expr())
+                if peek() != ')':
+                    raise RefError('expected )')
+                take()
+                return ('call', t, args)
             return ('var', t) if t.isalpha() else ('int', int(t))
         raise RefError(f'unexpected {t}')
 
@@ -124,6 +136,8 @@ def tree_of(node):
         return ('var', node.var.name)
     if n == 'IntValue':
         return ('int', node.data)
+    if n == 'FuncCall':
+        return ('call', node.func.base_name, [tree_of(a) for a in node.args])
     if n == 'LengthLookup':
         return ('LengthLookup', tree_of(node.source))
     if n == 'ArrayLookup':
@@ -179,6 +193,9 @@ def cases(thorough=False):
             ('a is int ?? b', ['a', 'is', 'int', '??', 'b']), ('a [ 1 ] . length [ 2 ]', ['a', '[', '1', ']', '.', 'length', '[', '2', ']']),
             ('a . length is int', ['a', '.', 'length', 'is', 'int']), ('( ( a ) )', ['(', '(', 'a', ')', ')']),
             ('a is int is int', ['a', 'is', 'int', 'is', 'int']),
+            ('f ( ) [ 0 ]', ['f', '(', ')', '[', '0', ']']), ('f ( x ) . length', ['f', '(', 'x', ')', '.', 'length']),
+            ('- f ( ) [ i ]', ['-', 'f', '(', ')', '[', 'i', ']']), ('a + f ( b , c * d ) [ 1 ] * e', ['a', '+', 'f', '(', 'b', ',', 'c', '*', 'd', ')', '[', '1', ']', '*', 'e']),
+            ('f ( a + b ) is int', ['f', '(', 'a', '+', 'b', ')', 'is', 'int']), ('not f ( ) and g ( 1 )', ['not', 'f', '(', ')', 'and', 'g', '(', '1', ')']),
             ('a +', ['a', '+']), ('( a', ['(', 'a']), ('a b', ['a', 'b']), ('- - - a * b', ['-', '-', '-', 'a', '*', 'b']),
             ('a or b and c == d + e * - f [ 1 ]', ['a', 'or', 'b', 'and', 'c', '==', 'd', '+', 'e', '*', '-', 'f', '[', '1', ']']),
             ('a [ 1 ] * - b + c < d and e or f', ['a', '[', '1', ']', '*', '-', 'b', '+', 'c', '<', 'd', 'and', 'e', 'or', 'f'])]
